@@ -275,12 +275,22 @@ func genCodeCase(t *rapid.T) CodeCase {
 		c.Src = r.Print(g.Expr([]string{proggen.TInt, proggen.TList, proggen.TAny}[rapid.IntRange(0, 2).Draw(t, "typ")], nil, 1))
 	case 3, 4, 5:
 		c.Kind = "lambda"
-		d := g.Defun().([]r.Val) // (defun name (params) body)
+		d := g.Defun().([]r.Val) // (defun name (params) body) or (let ((var lit)) (defun name (params) body))
+		var captured r.Val
+		if head, _ := d[0].(r.Sym); head == "let" {
+			captured = d[1]
+			d = d[2].([]r.Val)
+		}
 		lam := []r.Val{r.Sym("lambda"), d[2]}
 		if rapid.IntRange(0, 2).Draw(t, "doc") == 0 {
 			lam = append(lam, r.Str(genDoc(t)))
 		}
-		lam = append(lam, d[3:]...)
+		if captured != nil {
+			// a lambda's load form has no environment: the captured variable becomes a binding inside the body
+			lam = append(lam, r.L(append([]r.Val{r.Sym("let"), captured}, d[3:]...)...))
+		} else {
+			lam = append(lam, d[3:]...)
+		}
 		// the recursive variant calls itself by name; make it non recursive by using only non-recursive bodies
 		c.Src = r.Print(lam)
 		if strings.Contains(c.Src, "(f1 ") {
